@@ -49,16 +49,15 @@ ASSUMPTIONS = [
     "element values form a commutative semiring in spgemm_den / spgemm_csc_den (hypothesis comm_semiring, instantiated at "
     "Z in the Examples and in the judge); float rounding, dtype promotion and overflow of narrow integers are not modelled "
     "(result dtypes: differential only, compared in Python)",
-    "multi-operand einsum, _parse_einsum_input, kron, outer, vecdot, matmul batch recursion: correspondence only "
-    "(against NumPy), no theorem",
+    "multi-operand einsum, _parse_einsum_input, outer, vecdot: correspondence only (against NumPy), no theorem",
 ]
 UNPROVED = [
-    "multi-operand einsum (align, broadcast-multiply, single einsum) and _parse_einsum_input (string parsing): differential "
-    "only; einsum_single_den covers the single-operand step on a canonical COO operand (the GCXS round trip through "
-    "from_coo and the '...' expansion are not modelled)",
-    "matmul batch recursion (_matmul_recurser, stack of the per-batch products) and batch broadcasting: differential only; "
-    "matmul_route_spec covers the strategy selection",
-    "kron_den, outer, vecdot (compositions of reshape / elementwise multiply / sum): differential only",
+    "multi-operand einsum (align, broadcast-multiply, final single einsum) and _parse_einsum_input (string parsing, '...' "
+    "expansion): differential only; einsum_single_den covers the single-operand step on a canonical COO operand (the "
+    "GCXS round trip through from_coo is not modelled)",
+    "outer and vecdot (compositions of flatten / elementwise multiply / sum, i.e. C01/C03/C08 operations): differential only",
+    "kron_den and matmul_rec_den are about operands of equal rank: the prepending of length-1 axes (reshape / a[(None,)*k]), "
+    "the stack of the per-batch results and the sparse getitem a[i] are C08/C09/C02 subjects",
     "COO constructor steps after the kernels (sorting for sorted=False, summation for has_duplicates=True) are C05's "
     "subject; tensordot's sparse transposes/reshapes are C08's",
 ]
